@@ -101,21 +101,37 @@ def _sphere0(magpy):
     return magpy.magnet.Sphere(diameter=0.0, polarization=(0.1, 0.2, 0.3))
 
 
+# bodies for C16 (vertices, faces, size factor of the replay, expected status_selfintersecting).  The first five are the
+# self-intersecting bodies check_selfintersecting missed before its repair (now asserted by oracles/c16.py at every size); the
+# last one is still missed.
 C16_MESHES = {
     # Stella octangula: two regular tetrahedra, every edge of one crosses an edge of the other at its midpoint; the common part is an
-    # octahedron.  Each edge meets the other body's faces only ON their common edge: one signed volume is 0, np.sign(0) != +-1
+    # octahedron.  Each edge meets the other body's faces only ON their common edge: one signed volume is 0
     "stella-octangula": ([[1, 1, 1], [1, -1, -1], [-1, 1, -1], [-1, -1, 1], [-1, -1, -1], [-1, 1, 1], [1, -1, 1], [1, 1, -1]],
                          [[0, 1, 2], [0, 3, 1], [0, 2, 3], [1, 3, 2], [4, 5, 6], [4, 6, 7], [4, 7, 5], [5, 7, 6]], 1.0, True),
+    # the cube [0,2]^3 and its copy shifted by (1,1,1): every edge of one meets the other's faces exactly on a face diagonal
+    "cube-half-diagonal": ([[x, y, z] for x in (0, 2) for y in (0, 2) for z in (0, 2)] + [[x, y, z] for x in (1, 3) for y in (1, 3) for z in (1, 3)],
+                           [[0, 1, 3], [0, 3, 2], [4, 6, 7], [4, 7, 5], [0, 4, 5], [0, 5, 1], [2, 3, 7], [2, 7, 6], [0, 2, 6], [0, 6, 4], [1, 5, 7], [1, 7, 3],
+                            [8, 9, 11], [8, 11, 10], [12, 14, 15], [12, 15, 13], [8, 12, 13], [8, 13, 9], [10, 11, 15], [10, 15, 14], [8, 10, 14], [8, 14, 12], [9, 13, 15], [9, 15, 11]], 1.0, True),
     # two thin tetrahedra pointing at each other, tips overlapping by 0.2: the centroids of the crossing faces are 4/3 of their
-    # length apart, the ball query radius is 1.5 * (2/3 length) = 1 length: the pairs are never tested (r_factor=2 finds them)
+    # length apart; the ball query radius was 1.5 * (2/3 length) = 1 length: the pairs were never tested (r_factor=2 finds them)
     "two-spikes": ([[-1.0, 0.1, 0.0], [-1.0, -0.05, 0.0866], [-1.0, -0.05, -0.0866], [0.1, 0.0, 0.0], [1.0, -0.1, 0.0], [1.0, 0.05, -0.0866], [1.0, 0.05, 0.0866], [-0.1, 0.0, 0.0]],
                    [[0, 2, 1], [0, 1, 3], [1, 2, 3], [0, 3, 2], [4, 5, 6], [4, 7, 5], [5, 7, 6], [4, 6, 7]], 1.0, True),
-    # a thin spike through the interior of a face of the cube [-1,1]^3 — reported at this size, not when all numbers are micrometres
-    # (eps = 1e-6 is an absolute length)
+    # a thin spike through the interior of a face of the cube [-1,1]^3 — was reported at this size, not when all numbers are
+    # micrometres (eps = 1e-6 was an absolute length)
     "spike-box-micro": ([[-1, -1, -1], [-1, -1, 1], [-1, 1, -1], [-1, 1, 1], [1, -1, -1], [1, -1, 1], [1, 1, -1], [1, 1, 1],
                          [2.5, 0.3, -0.2], [0.4, 0.33, -0.2], [0.4, 0.27, -0.17], [0.4, 0.27, -0.23]],
                         [[0, 1, 3], [0, 3, 2], [4, 6, 7], [4, 7, 5], [0, 4, 5], [0, 5, 1], [2, 3, 7], [2, 7, 6], [0, 2, 6], [0, 6, 4], [1, 5, 7], [1, 7, 3],
                          [8, 9, 10], [8, 10, 11], [8, 11, 9], [9, 11, 10]], 1e-6, True),
+    # two needle triangles in perpendicular planes crossing near their tips (tips off each other's plane), centroids 4/3 lengths apart
+    "two-needles": ([[-1.0, -0.048, 0.0], [-1.0, 0.052, 0.0], [0.05, 0.002, 0.0], [1.0, 0.0, -0.0515], [1.0, 0.0, 0.0485], [-0.05, 0.0, -0.0015]],
+                    [[0, 1, 2], [3, 4, 5]], 1.0, True),
+    # STILL MISSED: a small octahedron whose equator lies in the top face of a box (away from the face's diagonal), its lower half
+    # inside the box: every edge of either body either lies in the plane of the facets it meets or ends in it
+    "octahedron-equator-in-face": ([[-2, -2, -2], [-2, -2, 0], [-2, 2, -2], [-2, 2, 0], [2, -2, -2], [2, -2, 0], [2, 2, -2], [2, 2, 0],
+                                    [1.5, 0, 0], [1.25, 0.25, 0], [1.0, 0, 0], [1.25, -0.25, 0], [1.25, 0, 0.25], [1.25, 0, -0.25]],
+                                   [[0, 1, 3], [0, 3, 2], [4, 6, 7], [4, 7, 5], [0, 4, 5], [0, 5, 1], [2, 3, 7], [2, 7, 6], [0, 2, 6], [0, 6, 4], [1, 5, 7], [1, 7, 3],
+                                    [8, 9, 12], [9, 10, 12], [10, 11, 12], [11, 8, 12], [9, 8, 13], [10, 9, 13], [11, 10, 13], [8, 11, 13]], 1.0, True),
 }
 
 
@@ -130,29 +146,6 @@ def _c16_selfintersecting(kind):
             m.check_selfintersecting(mode="ignore")
         return bool(m.status_selfintersecting) is not expected, {"kind": kind, "vertices": v.tolist(), "faces": f.tolist(), "status_selfintersecting": m.status_selfintersecting, "expected": expected}
     return run
-
-
-def _c16_valid_hull_flagged():
-    """a convex hull of 12 points on the unit sphere (closed, convex, not self-intersecting) with all numbers multiplied by 1000:
-    float32 noise of shared corners exceeds the absolute eps = 1e-6 and adjacent faces are reported as intersecting"""
-    import magpylib as magpy
-    from scipy.spatial import ConvexHull
-    out = []
-    for seed in range(8):
-        p = np.random.default_rng(seed).normal(size=(12, 3))
-        p /= np.linalg.norm(p, axis=1)[:, None]
-        f = ConvexHull(p).simplices
-        flags = []
-        for sc in (1.0, 1000.0):
-            with warnings.catch_warnings():
-                warnings.simplefilter("ignore")
-                m = magpy.magnet.TriangularMesh(vertices=p * sc, faces=f, polarization=(0, 0, 1), check_selfintersecting="ignore")
-                m.check_selfintersecting(mode="ignore")
-            flags.append(bool(m.status_selfintersecting))
-        out.append(flags)
-        if flags == [False, True]:
-            return True, {"seed": seed, "vertices_at_scale_1": p.tolist(), "faces": f.tolist(), "status_selfintersecting_at_scale_1_and_1000": flags}
-    return False, {"status_selfintersecting_at_scale_1_and_1000": out}
 
 
 def _c20_sensor_leaf(key):
@@ -218,10 +211,7 @@ REPLAYS = {
         "hang-or-crash:CylinderSegment:el3-nan-to-int": _cylseg_el3_valueerror,
         **{f"non-finite:{cls}:near-vertex:{f}": _near_vertex(cls, f) for cls in ("Triangle", "Tetrahedron", "TriangularMesh") for f in "BH"},
     },
-    "C16": {"status:stella-octangula:selfintersection-not-detected": _c16_selfintersecting("stella-octangula"),
-            "status:two-spikes:selfintersection-not-detected": _c16_selfintersecting("two-spikes"),
-            "status:spike-box-micro:selfintersection-not-detected": _c16_selfintersecting("spike-box-micro"),
-            "status:hull-x1000:valid-mesh-flagged-selfintersecting": _c16_valid_hull_flagged},
+    "C16": {"status:octahedron-equator-in-face:selfintersection-not-detected": _c16_selfintersecting("octahedron-equator-in-face")},
     "C20": {**{f"style:sensor:{k}:object-default-shadows-family": _c20_sensor_leaf(k) for k in ("pixel_size", "arrows_x_show", "arrows_y_show", "arrows_z_show")},
             "notation:dict-valued-property-rewritten": _c20_trace_kwargs},
 }
